@@ -132,11 +132,18 @@ class BuiltinMixin:
         # the count over an atomic sequence is an uninterpreted function named after the predicate: its source text plus the
         # values of the names it captures (two textually equal predicates over equal captured values share the function)
         f = fn.t
-        if f.node is None or not isinstance(f.node, ast.Lambda):
-            raise Unsupported('filter with a non-lambda predicate over a symbolic sequence')
+        body = None
+        if f.node is not None and isinstance(f.node, ast.Lambda):
+            body = f.node.body
+        elif f.node is not None and isinstance(f.node, ast.FunctionDef):
+            stmts = [x for x in f.node.body if not (isinstance(x, ast.Expr) and isinstance(x.value, ast.Constant))]
+            if len(stmts) == 1 and isinstance(stmts[0], ast.Return) and stmts[0].value is not None:
+                body = stmts[0].value        # def p(o): return <expr>   is the predicate  lambda o: <expr>
+        if body is None:
+            raise Unsupported('filter with a predicate that is not a single expression over a symbolic sequence')
         params = {a.arg for a in f.node.args.args}
-        parts = [ast.unparse(f.node.body)]
-        for nm in sorted({n.id for n in ast.walk(f.node.body) if isinstance(n, ast.Name)} - params):
+        parts = [ast.unparse(body)]
+        for nm in sorted({n.id for n in ast.walk(body) if isinstance(n, ast.Name)} - params):
             v = (f.closure or {}).get(nm)
             if v is None:
                 v = self.frame.env.get(nm)
